@@ -1094,6 +1094,24 @@ func (c *SpecCtx) evalCall(e *ECall) Val {
 		v := c.eval(e.Args[1])
 		c.st, c.inOld = saveSt, saveIn
 		return v
+	case "reached":
+		// reached(k): the header of loop k of this function has been reached on the path so far (with partial
+		// correctness: the loop has then run to its exit before anything after it executes)
+		kv := c.eval(e.Args[0])
+		if !kv.isConst() || c.fr == nil {
+			c.fail("reached: loop ordinal must be a constant")
+		}
+		k64, _ := constant.Int64Val(kv.Const)
+		found := false
+		for _, ol := range c.fr.loops {
+			if ol.ordinal == int(k64) {
+				found = true
+			}
+		}
+		if !found {
+			c.fail("reached(%d): the function has no loop with that ordinal", k64)
+		}
+		return Val{T: c.vc.memAtByName(c.st, fmt.Sprintf("calledloop.%d", k64)), Typ: boolT}
 	case "fapply":
 		// fapply(f, args...): result 0 of calling the function value f on args, in the same uninterpreted-function
 		// model the generator uses for calls through function values under funcvalues=pure
